@@ -93,7 +93,8 @@ def task_frame(f):
 
 
 def task_frame_items(label, f):
-    return task_frame(f)
+    # the result carries the label the function was handed (the Batch label, which differs from the frame's own name)
+    return task_frame(f).rename('got:%r' % (label,))
 
 
 IFACES = ('s_element', 's_element_items', 's_group', 's_window', 'f_array0', 'f_array1', 'f_array_items1', 'f_series1', 'f_series_items0',
@@ -179,22 +180,24 @@ def check(case):
             par, achieved = _scheduled(case, lambda: _iter_node(case).apply_pool(task, max_workers=case['workers'], chunksize=case['chunksize'], use_threads=case['threads']), seq)
             return _compare(case, seq, par, achieved, classes, 'apply_pool(%s, workers=%d, chunksize=%d, threads=%s)' % (case['iface'], case['workers'], case['chunksize'], case['threads']))
         if what == 'batch':
-            frames = [sf.Frame(np.array([[i * 100 + 1, i * 100 + 2], [3, 4]]), columns=('a', 'b'), name='f%d' % i) for i in range(n)]
+            # the Batch labels are not the frames' names (every third frame has no name at all)
+            frames = [sf.Frame(np.array([[i * 100 + 1, i * 100 + 2], [3, 4]]), columns=('a', 'b'), name=('f%d' % i if i % 3 else None)) for i in range(n)]
+            items = [('L%d' % i, f) for i, f in enumerate(frames)]
             op = case['batch_op']
 
             def run(workers):
                 # (the *_except forms document chunksize 1 only)
                 cs = 1 if op.endswith('_except') else case['chunksize']
-                b = sf.Batch.from_frames(frames, max_workers=workers, use_threads=case['threads'], chunksize=cs) if workers else sf.Batch.from_frames(frames)
+                b = sf.Batch(iter(items), max_workers=workers, use_threads=case['threads'], chunksize=cs) if workers else sf.Batch(iter(items))
                 if op == 'apply':
                     return b.apply(task_frame).to_frame()
                 if op == 'apply_items':
                     # pairs in yielded order (the order of the labels is part of the claim)
-                    return [(k, repr(v.values.tolist())) for k, v in b.apply_items(task_frame_items).items()]
+                    return [(k, v.name, repr(v.values.tolist())) for k, v in b.apply_items(task_frame_items).items()]
                 if op == 'apply_except':
                     return [(k, repr(v.values.tolist())) for k, v in b.apply_except(task_frame, ValueError).items()]
                 if op == 'apply_items_except':
-                    return [(k, repr(v.values.tolist())) for k, v in b.apply_items_except(task_frame_items, ValueError).items()]
+                    return [(k, v.name, repr(v.values.tolist())) for k, v in b.apply_items_except(task_frame_items, ValueError).items()]
                 if op == 'sum':
                     return b.sum().to_frame()
                 return b.iloc[:, 0].to_frame()
